@@ -187,8 +187,15 @@ def direct_metric_history(rng, keys):
     system = mici.systems.EuclideanMetricSystem(target.nld, grad_neg_log_dens=target.grad)
     trans = _T(system, mici.integrators.LeapfrogIntegrator(system, 0.1))
     tol, cond = tol_for(x)
+    # single-precision chain positions (e.g. initial states coming from a float32 pipeline): the adapters allocate
+    # their accumulators like the position, so all tolerances scale with the precision ratio F
+    F = 1.0
+    if rng.random() < 0.15 and tol * 2.0**29 < 0.01:
+        F = 2.0**29
+        x = x.astype(np.float32)
+        tol *= F
     desc = {"adapter": cls.__name__, "dim": dim, "n": n, "parts": [len(p) for p in parts], "reg_iter_offset": ro, "reg_scale": rs,
-            "offset_class": off_class}
+            "offset_class": off_class, "dtype": str(x.dtype)}
     states, chain_states, rngs = [], [], []
     for pi, part in enumerate(parts):
         cs = ChainState(pos=x[part[0]].copy(), mom=np.zeros(dim), dir=1)
@@ -202,7 +209,7 @@ def direct_metric_history(rng, keys):
                 if st["iter"] != j:
                     return violation("online-count", f"{PROP} online-count", f"{desc}: iter={st['iter']} after {j} updates")
                 scale = np.maximum(np.abs(sub).max(axis=0), 1e-300)
-                if np.any(np.abs(st["mean"] - sub.mean(axis=0)) > 1e3 * EPS * scale * (1 + j / 200)):
+                if np.any(np.abs(st["mean"] - np.asarray(sub, dtype=float).mean(axis=0)) > F * 1e3 * EPS * scale * (1 + j / 200)):
                     return violation("online-mean", f"{PROP} online-mean:{cls.__name__}", f"{desc}: running mean after {j} updates {st['mean']} != {sub.mean(axis=0)}")
                 if j >= 2:
                     d = np.asarray(sub, dtype=np.longdouble) - np.asarray(sub, dtype=np.longdouble).mean(axis=0)
@@ -215,6 +222,7 @@ def direct_metric_history(rng, keys):
                         got = st["sum_diff_sq"]
                         den = ref + 1e-300
                     ltol, _ = tol_for(sub)
+                    ltol *= F
                     if np.any(np.abs(got - ref) / den > ltol):
                         return violation("online-m2", f"{PROP} online-m2:{cls.__name__}",
                                          f"{desc}: running sum of squared deviations after {j} updates rel.err {np.max(np.abs(got - ref) / den):.2e} > {ltol:.2e}")
@@ -230,7 +238,7 @@ def direct_metric_history(rng, keys):
             adapter.finalize(states, chain_states, trans, rngs)
     except Exception as e:  # noqa: BLE001
         return violation("finalize-raised", f"{PROP} finalize-raised:{cls.__name__}:{type(e).__name__}", f"{desc}: finalize raised {type(e).__name__}: {e}")
-    ref = ref_pooled(x, ro, rs, full_cov, always_reg=full_cov)
+    ref = ref_pooled(np.asarray(x, dtype=float), ro, rs, full_cov, always_reg=full_cov)
     metric = system.metric
     m_arr = np.array(copy.deepcopy(metric).array)
     if full_cov:
@@ -256,11 +264,15 @@ def direct_metric_history(rng, keys):
         if r0.bit_generator.state != r1.bit_generator.state:
             return violation("momentum-refresh", f"{PROP} momentum-refresh-stream:{cls.__name__}", f"{desc}: generator advanced differently from one momentum draw")
     L = np.array(copy.deepcopy(metric).sqrt.array) if hasattr(metric.sqrt, "array") else None
-    if L is not None and np.abs(L @ L.T - m_arr).max() > 1e-8 * max(1.0, np.abs(m_arr).max()):
+    if L is not None and np.abs(L @ L.T - m_arr).max() > (1e-8 if F == 1.0 else 1e-5) * max(1.0, np.abs(m_arr).max()):
         return violation("metric-sqrt", f"{PROP} metric-sqrt", f"{desc}: sqrt of adapted metric inconsistent")
     if len(parts) >= 2 or n >= 3:
         keys.append(digest([cls.__name__, sorted(len(p) for p in parts), ro, rs, off_class, dim]))
     return None
+
+
+def _other_stat(stats):
+    return stats["other"]
 
 
 def direct_dual_history(rng, keys):
@@ -285,9 +297,11 @@ def direct_dual_history(rng, keys):
     kw = {"adapt_stat_target": rng.choice([0.6, 0.8, 0.9]), "log_step_size_reg_coefficient": rng.choice([0.05, 0.2]),
           "iter_decay_coeff": rng.choice([0.6, 0.75, 1.0]), "iter_offset": rng.choice([0, 10, 25])}
     fixed_target = rng.choice([None, None, 0.0, -1.0])
-    adapter = A.DualAveragingStepSizeAdapter(log_step_size_reducer=reducer, log_step_size_reg_target=fixed_target, **kw)
+    custom_stat = rng.random() < 0.3  # non-default controlled statistic: the update is fed a decoy accept_stat as well
+    extra = {"adapt_stat_func": _other_stat} if custom_stat else {}
+    adapter = A.DualAveragingStepSizeAdapter(log_step_size_reducer=reducer, log_step_size_reg_target=fixed_target, **kw, **extra)
     n_chain = rng.choice([1, 1, 2, 3, 5])
-    desc = {"adapter": "dual", "reducer": red, "n_chain": n_chain, **kw, "reg_target": fixed_target}
+    desc = {"adapter": "dual", "reducer": red, "n_chain": n_chain, **kw, "reg_target": fixed_target, "custom_stat": custom_stat}
     states, smoothed = [], []
     lens = []
     for c in range(n_chain):
@@ -326,7 +340,7 @@ def direct_dual_history(rng, keys):
             acc = np.array([(i % 2) * 1.0 for i in range(n)])
         logs, log_bar = ref_dual(acc, reg_t, kw["adapt_stat_target"], kw["log_step_size_reg_coefficient"], kw["iter_decay_coeff"], kw["iter_offset"])
         for m, a in enumerate(acc, start=1):
-            adapter.update(st, cs, {"accept_stat": float(a)}, trans)
+            adapter.update(st, cs, {"accept_stat": 1.0 - float(a), "other": float(a)} if custom_stat else {"accept_stat": float(a)}, trans)
             eps = integ.step_size
             if not (eps > 0 and math.isfinite(eps)):
                 return violation("step-size-range", f"{PROP} step-size-range", f"{desc}: step size {eps} after {m} updates ({style})")
